@@ -211,25 +211,7 @@ func c15(c *Ctx) {
 	}
 
 	// ---- C15.3 encoder and decoder draw limits at the same place ---------------------------------------------------------
-	r = "C15.3/limit-agreement"
-	for _, l := range c15Limits {
-		cm := c.limitComparisons(l.pkg, l.name)
-		ops := map[string]bool{}
-		var where []string
-		for f, os := range cm {
-			for _, o := range os {
-				ops[o] = true
-			}
-			where = append(where, f+":"+strings.Join(os, ","))
-		}
-		sort.Strings(where)
-		if len(cm) < 2 {
-			c.undecided(r, l.pkg+"."+l.name, fmt.Sprintf("expected the limit to be checked on both the encoding and the decoding side, found %v", where))
-			continue
-		}
-		c.check(len(ops) == 1, r, l.pkg+"."+l.name, "", "every check against the limit uses the same comparison: "+strings.Join(where, " "),
-			fmt.Sprintf("checks against %s disagree (%s): a value accepted when written is rejected when read, or vice versa", l.name, strings.Join(where, " ")))
-	}
+	c15LimitAgreement(c, "C15.3/limit-agreement")
 
 	// ---- C15.4 timestamps enter the engine at microsecond precision --------------------------------------------------------
 	c15TimestampNormalised(c, "C15.4/timestamp-normalised")
@@ -548,5 +530,28 @@ func c15TimestampNormalised(c *Ctx, r string) {
 			}
 		})
 		c.check(okv, r, fnName(f)+":microseconds", c.pos(f.Pos()), "interprets its argument as microseconds", "TimeFromInt64 no longer converts from microseconds")
+	}
+}
+
+// c15LimitAgreement: every comparison against a length limit of the tx formats uses the same operator on the writing
+// and on the reading side: a record accepted when it is written is not refused when it is read back.
+func c15LimitAgreement(c *Ctx, r string) {
+	for _, l := range c15Limits {
+		cm := c.limitComparisons(l.pkg, l.name)
+		ops := map[string]bool{}
+		var where []string
+		for f, os := range cm {
+			for _, o := range os {
+				ops[o] = true
+			}
+			where = append(where, f+":"+strings.Join(os, ","))
+		}
+		sort.Strings(where)
+		if len(cm) < 2 {
+			c.undecided(r, l.pkg+"."+l.name, fmt.Sprintf("expected the limit to be checked on both the encoding and the decoding side, found %v", where))
+			continue
+		}
+		c.check(len(ops) == 1, r, l.pkg+"."+l.name, "", "every check against the limit uses the same comparison: "+strings.Join(where, " "),
+			fmt.Sprintf("checks against %s disagree (%s): a value accepted when written is rejected when read, or vice versa", l.name, strings.Join(where, " ")))
 	}
 }
